@@ -224,9 +224,13 @@ pub fn t2(prop: &str, seed: u64) -> RunDesc {
 pub fn t3(prop: &str, seed: u64) -> RunDesc {
     let mut rng = Rng::new(seed);
     let mut d = base(&mut rng, prop, "dir-t3", seed, 5);
-    let child_in_parent = rng.chance(0.7);
+    let child_in_parent = rng.chance(0.6);
+    let two_owners = !child_in_parent && rng.chance(0.6);
     if child_in_parent {
         d.threads.push(thread(0, "setup", setup_parent_child(false, true)));
+    } else if two_owners {
+        // X in ROOT[1] and ROOT[0]: the last two owners are released by two threads at once
+        d.threads.push(thread(0, "setup", vec![o(K::New, 1, NONE_SLOT, 2, 0), o(K::Pin, 0, 0, 0, 0), o(K::Downgrade, 1, 0, 0, 0), o(K::StoreW, WROOT0, 0, 0, 0), o(K::Clone, 1, 2, 0, 0), o(K::Store, ROOT0, 2, 0, 0), o(K::Store, ROOT1, 1, 0, 0), o(K::Unpin, 0, 0, 0, 0)]));
     } else {
         // X alone in ROOT[1]: a root destruct
         d.threads.push(thread(0, "setup", vec![o(K::New, 1, NONE_SLOT, 2, 0), o(K::Pin, 0, 0, 0, 0), o(K::Downgrade, 1, 0, 0, 0), o(K::StoreW, WROOT0, 0, 0, 0), o(K::Store, ROOT1, 1, 0, 0), o(K::Unpin, 0, 0, 0, 0)]));
@@ -239,10 +243,18 @@ pub fn t3(prop: &str, seed: u64) -> RunDesc {
         let mut v = vec![o(K::Pin, 0, 0, 0, 0), o(K::LoadW, WROOT0, 0, 0, 0), o(K::WsCounted, 0, 0, 0, 0), o(K::Unpin, 0, 0, 0, 0), o(K::Signal, 1 + u as u32, 0, 0, 0)];
         let k = 2 + rng.below(4) as usize;
         let mut held_once = false;
+        let mut held_rc_once = false;
         for i in 0..k {
             if rng.chance(0.5) {
                 v.push(o(K::Upgrade, 0, 1, 0, 0));
                 if rng.chance(0.5) {
+                    v.push(o(K::DerefRc, 1, 0, 0, 0));
+                }
+                if !held_rc_once && rng.chance(0.5) {
+                    // keep the upgraded owner across the other threads' collection rounds
+                    held_rc_once = true;
+                    v.push(o(K::Await, 5, 0, 0, 0));
+                    v.extend(rounds(2));
                     v.push(o(K::DerefRc, 1, 0, 0, 0));
                 }
                 v.push(o(K::DropRc, 1, 0, 0, 0));
@@ -282,6 +294,9 @@ pub fn t3(prop: &str, seed: u64) -> RunDesc {
         }
         d.threads.push(thread(2, "upgrader-in-destructor", v));
     }
+    if two_owners {
+        d.threads.push(thread(2, "retire-other-owner", vec![o(K::Await, 1, 0, 0, 0), o(K::Pin, 0, 0, 0, 0), o(K::Store, ROOT0, NONE_SLOT, 0, 0), o(K::Unpin, 0, 0, 0, 0)]));
+    }
     let mut retire = vec![o(K::Await, 1, 0, 0, 0), o(K::Pin, 0, 0, 0, 0), o(K::Store, ROOT1, NONE_SLOT, 0, 0), o(K::Flush, 0, 0, 0, 0), o(K::Unpin, 0, 0, 0, 0)];
     retire.extend(rounds(3 + rng.below(5) as usize));
     retire.push(o(K::Signal, 5, 0, 0, 0));
@@ -290,7 +305,7 @@ pub fn t3(prop: &str, seed: u64) -> RunDesc {
         let n = noise(&mut rng, 2, &d.cfg);
         d.threads.push(n);
     }
-    d.params = J::obj().set("template", "T3 upgrade racing destruction").set("child_in_parent", child_in_parent).set("link_age_rounds", age).set("upgrader_acts_during_pop_edges", in_destructor);
+    d.params = J::obj().set("template", "T3 upgrade racing destruction").set("child_in_parent", child_in_parent).set("link_age_rounds", age).set("upgrader_acts_during_pop_edges", in_destructor).set("two_owners_released_at_once", two_owners);
     d
 }
 
@@ -496,6 +511,10 @@ pub fn t9(prop: &str, seed: u64) -> RunDesc {
     // whose first edge leads into the long chain: the cascade comes back to it after the whole
     // chain, several re-pins and clock ticks after it entered the root
     let second_edge = rng.chance(0.35);
+    // every chain node gets a real (old) stamp of its own: an extra owner is dropped right away.
+    // Without it a node's never-written stamp field reads 0 and the C12 oracle cannot tell a
+    // gratuitous deferral from a legitimate one.
+    let prestamp = rng.chance(0.5);
     let mut v;
     if second_edge {
         // C in slot 2 (highest class), extra owner in ROOT[0]; chain in slots 0/1; root R in slot 4
@@ -503,6 +522,9 @@ pub fn t9(prop: &str, seed: u64) -> RunDesc {
         for i in 1..len {
             let (cur, prev) = (i % 2, (i - 1) % 2);
             v.push(o(K::New, cur, NONE_SLOT, 60_000 - i, 0));
+            if prestamp {
+                v.extend([o(K::Clone, cur, 5, 0, 0), o(K::DropRc, 5, 0, 0, 0)]);
+            }
             v.push(o(K::Store, rc_field(cur, 0), prev, 0, 0));
         }
         v.extend([
@@ -518,6 +540,9 @@ pub fn t9(prop: &str, seed: u64) -> RunDesc {
         for i in 1..len {
             let (cur, prev) = (i % 2, (i - 1) % 2);
             v.push(o(K::New, cur, NONE_SLOT, 60_000 - i, 0));
+            if prestamp {
+                v.extend([o(K::Clone, cur, 5, 0, 0), o(K::DropRc, 5, 0, 0, 0)]);
+            }
             v.push(o(K::Store, rc_field(cur, 0), prev, 0, 0));
         }
         v.push(o(K::Store, ROOT1, (len - 1) % 2, 0, 0));
@@ -596,7 +621,7 @@ pub fn t9(prop: &str, seed: u64) -> RunDesc {
         d.threads.push(t);
     }
     d.cfg.step_cap = 3_000_000;
-    d.params = J::obj().set("template", "T9 late stamp deep inside a long cascade").set("len", len).set("signal_depth", d.cfg.signal_depth).set("hold", hold).set("reader_flushes_inside_cs", flush_inside).set("late_node_is_second_edge_of_root", second_edge);
+    d.params = J::obj().set("template", "T9 late stamp deep inside a long cascade").set("len", len).set("signal_depth", d.cfg.signal_depth).set("hold", hold).set("reader_flushes_inside_cs", flush_inside).set("late_node_is_second_edge_of_root", second_edge).set("nodes_prestamped", prestamp);
     d
 }
 
@@ -835,6 +860,40 @@ pub fn b(prop: &str, seed: u64) -> RunDesc {
         d.threads.push(thread(0, "ticker", rounds(2 + rng.below(5) as usize)));
     }
     d.params = J::obj().set("template", "B bulk iterator closed while its yielded owners are released elsewhere").set("count", count).set("taken", take).set("abort", abort);
+    d
+}
+
+/// T14: a WeakSnapshot outlives the last Weak *and* the object. The parent's destruction has
+/// expired but is still queued (the clock was advanced without collecting) when a reader pins and
+/// loads a WeakSnapshot of the child from WROOT[0]; a writer then drops that last Weak and
+/// collects, so the cascade reclaims the child with no Weak outstanding; afterwards the reader,
+/// still in the same critical section, upgrades: that must fail (C05), and the block must still
+/// be there for it (C03).
+pub fn t14(prop: &str, seed: u64) -> RunDesc {
+    let mut rng = Rng::new(seed);
+    let mut d = base(&mut rng, prop, "dir-t14", seed, 5);
+    d.cfg.stall = None;
+    d.threads.push(thread(0, "setup", setup_parent_child(false, true)));
+    d.threads.push(thread(1, "age", rounds(3 + rng.below(4) as usize)));
+    d.threads.push(thread(2, "retire-parent", vec![o(K::Pin, 0, 0, 0, 0), o(K::Store, ROOT1, NONE_SLOT, 0, 0), o(K::Flush, 0, 0, 0, 0), o(K::Unpin, 0, 0, 0, 0)]));
+    let mut adv = Vec::new();
+    for _ in 0..4 + rng.below(2) {
+        adv.extend([o(K::Pin, 0, 0, 0, 0), o(K::TryAdvance, 0, 0, 0, 0), o(K::Unpin, 0, 0, 0, 0)]);
+    }
+    d.threads.push(thread(3, "advance", adv));
+    let mut r = vec![o(K::Pin, 0, 0, 0, 0), o(K::LoadW, WROOT0, 0, 1, 0), o(K::Signal, 6, 0, 0, 0), o(K::Await, 5, 0, 0, 0)];
+    match rng.below(3) {
+        0 => r.extend([o(K::WsUpgrade, 1, 0, 0, 0), o(K::DerefSnap, 0, 0, 0, 0)]),
+        1 => r.extend([o(K::WsCounted, 1, 0, 0, 0), o(K::Upgrade, 0, 1, 0, 0), o(K::DerefRc, 1, 0, 0, 0), o(K::DropRc, 1, 0, 0, 0), o(K::DropW, 0, 0, 0, 0)]),
+        _ => r.extend([o(K::WsUpgrade, 1, 0, 0, 0), o(K::Counted, 0, 1, 0, 0), o(K::DerefRc, 1, 0, 0, 0), o(K::DropRc, 1, 0, 0, 0)]),
+    }
+    r.push(o(K::Unpin, 0, 0, 0, 0));
+    d.threads.push(thread(4, "reader", r));
+    let mut w = vec![o(K::Await, 6, 0, 0, 0), o(K::Pin, 0, 0, 0, 0), o(K::StoreW, WROOT0, NONE_SLOT, 0, 0), o(K::Flush, 0, 0, 0, 0), o(K::Unpin, 0, 0, 0, 0)];
+    w.extend(rounds(1 + rng.below(3) as usize));
+    w.push(o(K::Signal, 5, 0, 0, 0));
+    d.threads.push(thread(4, "drop-last-weak-and-collect", w));
+    d.params = J::obj().set("template", "T14 WeakSnapshot outlives the last Weak and the object");
     d
 }
 
